@@ -52,6 +52,13 @@ func (x *Exec) doCall(fr *Frame, st *State, site ssa.Instruction, c *ssa.CallCom
 			// its arguments' values (stated in the trusted base)
 			return x.ufCall(p.Name(), args, c.Signature(), st)
 		}
+		if u, ok := c.Value.(*ssa.UnOp); ok && len(c.Args) == 0 {
+			if g, isG := u.X.(*ssa.Global); isG {
+				// e.g. `var now = func() time.Time {...}`: a clock/ID hook that is handed nothing
+				x.assumed["call of the package-level function variable "+g.Name()+"() (takes no arguments): assumed not to touch modelled state; result arbitrary"] = true
+				return x.freshResult(fr, st, g.Name(), rt)
+			}
+		}
 		x.assumed["call through a function value: all heaps havoced, result unconstrained"] = true
 		x.havocAll(st)
 		return x.freshResult(fr, st, "dyn", rt)
